@@ -529,6 +529,7 @@ type uWorld struct {
 	xid    string
 	branch int64
 	parser uParser
+	real   bool
 }
 
 func uSetup(s uSchema, branchLog *undo.BranchUndoLog, xid string, branchID int64) *uWorld {
@@ -540,9 +541,14 @@ func uSetup(s uSchema, branchLog *undo.BranchUndoLog, xid string, branchID int64
 	undo.UndoConfig.LogTable = ""
 	datasource.RegisterTableCache(types.DBTypeMySQL, uMetaCache{uTableMeta(s)})
 	w := &uWorld{d: d, xid: xid, branch: branchID, parser: uParser{branchLog}}
-	vrt.Redirect((*undoparser.UndoLogParserCache).Load, func(_ *undoparser.UndoLogParserCache, name string) (undoparser.UndoLogParser, error) {
-		return w.parser, nil
-	})
+	// realparser=1 (default): the undo log goes through the real JSON parser and
+	// ColumnImage (un)marshalling; 0: an identity parser (faster, used for deep tiers)
+	w.real = vrt.Param("realparser", 1) == 1
+	if !w.real {
+		vrt.Redirect((*undoparser.UndoLogParserCache).Load, func(_ *undoparser.UndoLogParserCache, name string) (undoparser.UndoLogParser, error) {
+			return w.parser, nil
+		})
+	}
 	w.mgr = &ATSourceManager{resourceCache: sync.Map{}, basic: datasource.NewBasicSourceManager(), rmRemoting: rm.GetRMRemotingInstance()}
 	res := &DBResource{resourceID: "res", dbType: types.DBTypeMySQL, db: sql.OpenDB(uConnector{d}), dbName: "db"}
 	w.mgr.resourceCache.Store("res", res)
@@ -551,7 +557,14 @@ func uSetup(s uSchema, branchLog *undo.BranchUndoLog, xid string, branchID int64
 
 func (w *uWorld) addUndoLog() {
 	ctx := collection.EncodeMap(map[string]string{"serializerKey": "json", "compressorTypeKey": "None"})
-	w.d.logs = append(w.d.logs, uLog{xid: w.xid, branch: w.branch, context: ctx, info: []byte("undo"), status: 0, present: true})
+	info := []byte("undo")
+	if w.real {
+		p, err := undoparser.GetCache().Load("json")
+		vrt.Assert(err == nil, "fixture/json-parser-available")
+		info, err = p.Encode(w.parser.log)
+		vrt.Assert(err == nil, "fixture/undo-log-encodes")
+	}
+	w.d.logs = append(w.d.logs, uLog{xid: w.xid, branch: w.branch, context: ctx, info: info, status: 0, present: true})
 }
 
 func (w *uWorld) rollback() (st branch.BranchStatus, err error, panicked bool) {
